@@ -102,7 +102,9 @@ fn extract_class(
     } else {
         None
     };
-    let mut body_name_stmts: HashMap<Core, (usize, Core)> = match body {
+    // position, then original index (0 for a synthesised constructor): a total order, so that the
+    // emitted order of the members never depends on the iteration order of the map
+    let mut body_name_stmts: HashMap<Core, (usize, usize, Core)> = match body {
         Some(Core::Block { statements }) => statements,
         Some(other) => vec![other],
         None => vec![],
@@ -127,7 +129,7 @@ fn extract_class(
                 },
             ),
         };
-        (key, (pos, stmt.clone()))
+        (key, (pos, i + 1, stmt.clone()))
     })
     .collect();
 
@@ -136,23 +138,24 @@ fn extract_class(
     let old_init = body_name_stmts
         .iter()
         .find(|(name, _)| matches!(name, Core::Id { lit } if *lit == function::python::INIT))
-        .map(|(_, (_, function))| function);
+        .map(|(_, (_, _, function))| function);
     if let Some(new_init) = init(&old_init, &args, parents)? {
         let init = Core::Id {
             lit: String::from(function::python::INIT),
         };
-        let pos = if let Some((pos, _)) = body_name_stmts.get(&init) {
-            *pos // leave pos untouched
+        let (pos, index) = if let Some((pos, index, _)) = body_name_stmts.get(&init) {
+            (*pos, *index) // leave pos untouched
         } else {
-            body_name_stmts
+            let pos = body_name_stmts
                 .values()
-                .filter(|(_, stmt)| matches!(stmt, Core::VarDef { .. }))
-                .map(|(pos, _)| *pos + 1)
+                .filter(|(_, _, stmt)| matches!(stmt, Core::VarDef { .. }))
+                .map(|(pos, _, _)| *pos + 1)
                 .max()
-                .unwrap_or(0) // otherwise always first
+                .unwrap_or(0); // otherwise always first
+            (pos, 0)
         };
 
-        body_name_stmts.insert(init, (pos, new_init));
+        body_name_stmts.insert(init, (pos, index, new_init));
     }
 
     let parent_names = parents
@@ -183,8 +186,8 @@ fn extract_class(
 
     let body_stmts: Vec<Core> = body_name_stmts
         .values()
-        .sorted_by_key(|(pos, _)| *pos)
-        .map(|(_, stmt)| stmt.clone())
+        .sorted_by_key(|(pos, index, _)| (*pos, *index))
+        .map(|(_, _, stmt)| stmt.clone())
         .collect();
 
     let statements = if body_stmts.is_empty() {
